@@ -242,7 +242,7 @@ def check(run):
     want = 7000 if thorough else 2000
     while len(specs) < want:
         k += 1
-        g = r.choice([None, None, "T", "a", "aT", "aTw", "I", "aI", "N", "TU", "Tdef", "TNdef"])
+        g = r.choice([None, None, "T", "a", "aT", "aTw", "I", "aI", "N", "TU", "Tdef", "TNdef", "Tw", "TwU", "aTwd", "Tnd", "NT"])
         s = build(r, "E%d" % k, generics=g)
         if s is not None:
             specs.append(s)
